@@ -1925,6 +1925,65 @@ func C17(rc *vk.Rec) {
 		}
 	}
 
+	// ---- ck: the raw-vs-LZMA choice per 64 KiB chunk of the XZ encoder, at
+	// its boundary: a full chunk of z zeroes + incompressible bytes, with z
+	// swept across the point where the literal-only LZMA coding of the chunk is
+	// as long as the chunk itself (the 16-bit size fields of the chunk header
+	// are at their limit exactly there); alone and as the middle of three chunks
+	{
+		phase := "ck"
+		nSeeds := 4
+		if rc.Thorough() {
+			nSeeds = 64
+		}
+		const span = 20
+		per := 2 * (2*span + 1)
+		for idx := int64(0); idx < int64(rc.N(nSeeds*per, nSeeds*per)); idx++ {
+			if rc.SkipCase(phase, idx) {
+				continue
+			}
+			g := c17global(rc, idx)
+			if g >= int64(nSeeds*per) {
+				continue
+			}
+			rc.Mark(phase, idx)
+			seed, k := int(g)/per, int(g)%per
+			r := vk.CaseRNG(rc.Seed, 0, phase+"-chunk", int64(seed)) // the same random fill for every z of one seed
+			fill := make([]byte, 65536)
+			r.Read(fill)
+			mk := func(z int) []byte {
+				x := append([]byte(nil), fill...)
+				for i := 0; i < z && i < len(x); i++ {
+					x[i] = 0
+				}
+				return x
+			}
+			size := func(z int) int { return len(c17encode(lol.FileFormatLZMA, mk(z), 0).out) }
+			lo, hi := 0, 4096 // encoded size shrinks as z grows
+			for lo < hi {
+				mid := (lo + hi) / 2
+				if size(mid) > 65536+13+5 {
+					lo = mid + 1
+				} else {
+					hi = mid
+				}
+			}
+			z := lo + k/2 - span
+			if z < 0 {
+				z = 0
+			}
+			x := mk(z)
+			desc := map[string]interface{}{"leading_zeroes": z, "crossing_at": lo, "lzma_file_len": size(z)}
+			if k%2 == 1 {
+				pre := make([]byte, 65536)
+				r.Read(pre)
+				x = append(append(pre, x...), fill[:1000+r.Intn(3000)]...)
+				desc["position"] = "middle chunk of three"
+			}
+			e.roundTrip(phase, idx, "chunk-form-boundary", x, 0, desc)
+		}
+	}
+
 	// ---- rt: random payloads
 	{
 		phase := "rt"
